@@ -78,7 +78,10 @@ func vExpectedSet(e *keeper.VEnv) []vTMVal {
 			cands[j] = v
 		}
 	}
-	max := int(e.K.MaxValidators(e.Ctx))
+	// the limit as stored in the parameter store (not through the keeper's own getter, which is code under test)
+	var limit uint64
+	e.K.Paramstore.Get(e.Ctx, types.KeyMaxValidators, &limit)
+	max := int(limit)
 	if len(cands) > max {
 		cands = cands[:max]
 	}
@@ -358,22 +361,28 @@ func vC05Op(e *keeper.VEnv, h sdk.Handler, tag string) {
 // VerifC05_History: two staking-state changes on either of two validators (plus a third key that may join), an
 // EndBlock after each: every batch applies to the model of Tendermint's set and leaves it equal to the
 // top-MaxValidators staked, unjailed validators.
-func VerifC05_History() {
+func VerifC05_History() { vC05History(2) }
+
+// VerifC05T_HistoryLong (thorough tier): three changes, over two of the four stake patterns and MaxValidators 1..2.
+func VerifC05T_HistoryLong() { vC05History(3) }
+
+func vC05History(steps int) {
 	e := keeper.VNewEnv(3)
 	for i := 0; i < 3; i++ {
 		e.Fund(e.Addrs[i], sdk.NewInt(1<<41))
 	}
 	// equal, adjacent or distant powers
 	e.Stake(0, sdk.NewInt(3000000))
-	e.Stake(1, sdk.NewInt([]int64{2000000, 3000000, 3999999, 4000000}[zz.Choice("stake1", 4)]))
-	vSetMaxValidators(e, uint64(1+zz.Choice("maxvals", 3)))
+	if steps <= 2 {
+		e.Stake(1, sdk.NewInt([]int64{2000000, 3000000, 3999999, 4000000}[zz.Choice("stake1", 4)]))
+		vSetMaxValidators(e, uint64(1+zz.Choice("maxvals", 3)))
+	} else {
+		e.Stake(1, sdk.NewInt([]int64{3000000, 3999999}[zz.Choice("stake1", 2)]))
+		vSetMaxValidators(e, uint64(1+zz.Choice("maxvals", 2)))
+	}
 	tm := &vTMSet{}
 	vEndBlock(e, tm, "C05.history.genesis")
 	h := NewHandler(e.K)
-	steps := 2
-	if zz.Thorough() {
-		steps = 3
-	}
 	for s := 0; s < steps; s++ {
 		vC05Op(e, h, []string{"s1", "s2", "s3"}[s])
 		vEndBlock(e, tm, "C05.history.after-op")
